@@ -5,6 +5,7 @@ import FimVerif.Proofs.Lemmas.C12Details
 import FimVerif.Proofs.Lemmas.C12Hist
 import FimVerif.Proofs.Lemmas.C12Annotate
 import FimVerif.Proofs.Lemmas.C12Single
+import FimVerif.Model.DelegHeap
 /-!
 # C12 — delegations and pools survive encoding and regrouping unchanged
 
@@ -982,5 +983,101 @@ example (valid : String → CVal → Bool) (hv : valid "vlan_range" (.str "1-100
   · intro p hp
     simp only [P, List.mem_cons, List.not_mem_nil, or_false] at hp
     rcases hp with rfl | rfl <;> exact ⟨labReal, rfl, labReal_real valid hv⟩
+
+/-! ## histories on one container: kept pools mutated, replaced, completed between indexing runs (`Model/DelegHeap.lean`) -/
+
+theorem indexGo_of_foldlM (l : List (Pool D)) (idx idx' : List (String × List (Pool D)))
+    (h : l.foldlM indexStep idx = .ok idx') : indexGo idx l = (idx', none) := by
+  induction l generalizing idx with
+  | nil => simp [pure, Except.pure] at h; unfold indexGo; rw [h]
+  | cons p l ih =>
+    rw [List.foldlM_cons] at h
+    cases hy : indexStep idx p with
+    | error e => simp [hy, bind, Except.bind] at h
+    | ok b =>
+      simp only [hy, bind, Except.bind] at h
+      unfold indexGo
+      simp only [hy]
+      exact ih _ h
+
+/-- **an indexing run has no memory**: at ANY state of the container - any history of `add_pool`, setter calls on pools that
+already sit in it (re-delegation, completion), replaced objects, earlier runs that returned or raised half-way, whatever index
+they left behind - `build_index_by_delegation_id` leaves exactly the index (and raises exactly when) the value-level run
+computes from the pools as they are NOW (`view`: what the getters show) -/
+theorem hist_index_fresh (s : HPools D) :
+    (hIndex s).1.view = (buildIndexS s.view).1 ∧ (hIndex s).2 = (buildIndexS s.view).2 := by
+  have h := hIndexGo_view s.deref [] s.byId
+  refine ⟨?_, h.2⟩
+  unfold hIndex buildIndexS HPools.view
+  simp only [Option.map_some]
+  have hd : ∀ r, HPools.deref { s with index := some (hIndexGo s.deref [] s.byId).1 } r = s.deref r := fun r => rfl
+  congr 1
+  have : (HPools.deref { s with index := some (hIndexGo s.deref [] s.byId).1 }) = s.deref := funext hd
+  rw [this, h.1]; rfl
+
+/-- **the pools clause after any history**: whenever the pools of the container as they are now are a valid clash-free family,
+the next indexing run returns and generate / incorporate (any of the orders of `pools_roundtrip_any_order` follows from `RInv` and
+the permutation as there) reconstruct exactly these pools - the delegation id a pool had at an earlier run plays no role -/
+theorem hist_pools_roundtrip (ops : DetailOps D) (s : HPools D) (hF : Family ops s.ty s.view.byId) (hN : NoClash s.view.byId) :
+    ∃ R Q, (hIndex s).2 = none ∧ generate ops (hIndex s).1.view = .ok R ∧ RInv s.ty R ∧
+      (flat R).Perm (allEntries s.ty s.view.byId) ∧
+      incorporateAll (emptyPools s.ty) R = .ok Q ∧ Q.ty = s.ty ∧ SamePools s.view.byId Q.byId := by
+  obtain ⟨idx, hfold, -, -⟩ := buildIndex_fold ops s.ty s.view.byId [] hF.ok (by intro e he; cases he)
+  have hgo := indexGo_of_foldlM s.view.byId [] idx hfold
+  have ha := addPool_fold s.ty s.view.byId [] (fun p hp => (hF.ok p hp).ty_) (fun p hp => (hF.ok p hp).name) (by simpa using hF.distinct)
+  simp only [List.nil_append] at ha
+  have hb : buildPools s.ty s.view.byId = .ok { ty := s.ty, byId := s.view.byId, index := some idx } := by
+    unfold buildPools emptyPools
+    rw [ha]
+    show buildIndex ({ ty := s.ty, byId := s.view.byId, index := none } : Pools D) = _
+    unfold buildIndex
+    dsimp only
+    rw [hfold]
+    rfl
+  obtain ⟨ps, R, hb', -, hg, hinv, hperm⟩ := generate_ok_of_noClash ops s.ty s.view.byId hF hN
+  rw [hb] at hb'
+  injection hb' with hps
+  subst hps
+  obtain ⟨Q, hi, hty, hs⟩ := incorporate_entries ops s.ty s.view.byId R hF hinv hperm
+  have hfresh := hist_index_fresh s
+  have hv : (hIndex s).1.view = { ty := s.ty, byId := s.view.byId, index := some idx } := by
+    rw [hfresh.1]; unfold buildIndexS; simp only [hgo]; rfl
+  refine ⟨R, Q, ?_, ?_, hinv, hperm, hi, hty, hs⟩
+  · rw [hfresh.2]; unfold buildIndexS; simp only [hgo]
+  · rw [hv]; exact hg
+
+
+/-- the same, with the history spelled out: every sequence of `add_pool` / setter / indexing calls from the empty container -/
+theorem hist_pools_roundtrip_any_history (ops : DetailOps D) (ty : DType) (steps : List (HStep D)) :
+    let s := hRun (hEmpty ty) steps
+    Family ops s.ty s.view.byId → NoClash s.view.byId →
+    ∃ R Q, (hIndex s).2 = none ∧ generate ops (hIndex s).1.view = .ok R ∧ RInv s.ty R ∧
+      (flat R).Perm (allEntries s.ty s.view.byId) ∧
+      incorporateAll (emptyPools s.ty) R = .ok Q ∧ Q.ty = s.ty ∧ SamePools s.view.byId Q.byId :=
+  fun hF hN => hist_pools_roundtrip ops _ hF hN
+
+/-- a history that ends in `poolsEx` with a STALE index: pool2 is indexed under `del9`, then re-delegated to `del2` -/
+def histEx : HPools Det := hRun (hEmpty .lab) [
+  .add { ty := .lab, pid := "pool1", deleg := some "del1", on_ := some "node1", for_ := ["node2", "node3"], details := some labEx },
+  .add { ty := .lab, pid := "pool2", deleg := some "del9", on_ := some "node2", for_ := ["node1", "node3"], details := some labEx },
+  .index, .mut 1 (mSetDeleg "del2")]
+
+/-- non-vacuity of `hist_pools_roundtrip` / `hist_pools_roundtrip_any_history`: the pools are `poolsEx`, the index left by the
+earlier run still files object 1 under `del9`; and of the failed-run case: an unfinished pool leaves a partial index behind -/
+example : histEx.view.byId = poolsEx ∧ histEx.index = some [("del1", [0]), ("del9", [1])] ∧
+    Family detOps histEx.ty histEx.view.byId ∧ NoClash histEx.view.byId := by
+  have h : histEx.view.byId = poolsEx := by decide
+  refine ⟨h, by decide, ?_, ?_⟩
+  · rw [h]; exact poolsEx_family
+  · rw [h]; decide
+
+example : (hIndex (hRun (hEmpty .lab) [
+    .add ({ ty := .lab, pid := "pool1", deleg := some "del1", on_ := some "node1", for_ := ["node2"], details := some labEx } : Pool Det),
+    .add { ty := .lab, pid := "pool2", deleg := some "del2", on_ := some "node2", for_ := ["node1"], details := none }])).1.index
+      = some [("del1", [0])] ∧
+    (hIndex (hRun (hEmpty .lab) [
+    .add ({ ty := .lab, pid := "pool1", deleg := some "del1", on_ := some "node1", for_ := ["node2"], details := some labEx } : Pool Det),
+    .add { ty := .lab, pid := "pool2", deleg := some "del2", on_ := some "node2", for_ := ["node1"], details := none }])).2 = some .pool := by
+  decide
 
 end FimVerif.C12
